@@ -2,10 +2,11 @@
 """mk_frozen.py : (re)write harness/frozen_glue.json from /repo's current sources.
 
 For every file a property is anchored in (properties.jsonl) the record holds
-  functions : the full source (decorators, signature with its defaults, body; docstrings stripped, ast.unparse) of every function
-              that NO generator reads through py2coq.load_function / assert_body while regenerating the models of all properties
-              (the registry is taken by actually running every generator module, not by looking for names in their text:
-              seeded/C20_m5 and seeded/C01_m4 changed functions that were only *mentioned* somewhere);
+  functions : the full source (decorators, signature with its defaults, body; docstrings stripped, ast.unparse) of every function;
+  read_by   : for the functions some generator reads through py2coq.load_function / assert_body while regenerating the models,
+              the generator modules that do (the registry is taken by actually running every generator module, not by looking
+              for names in their text: seeded/C20_m5 and seeded/C01_m4 changed functions that were only *mentioned* somewhere).
+              The check of a property compares every function that none of ITS OWN generators reads;
   headers   : decorators and signature of every function, also of those a generator reads (a translator of a body does not see
               `@property` becoming `@cached_property`, nor a mutable default argument);
   statements: the module-level and class-level statements that are not functions, classes, imports or docstrings (constants,
@@ -58,29 +59,34 @@ if __name__ == '__main__':
                     'atsim/potentials/referencedata/__init__.py': ['C03'], 'atsim/potentials/config/__init__.py': ['C09', 'C16']}.items():
         files.setdefault(f, []).extend(pids)
     # registry: what the generators really read
-    LOADED = set()
+    LOADED = {}
+    CUR = ['?']
     orig = py2coq.load_function
     def rec(r, relfile, qualname):
-        LOADED.add((relfile, qualname)); return orig(r, relfile, qualname)
+        LOADED.setdefault((relfile, qualname), set()).add(CUR[0]); return orig(r, relfile, qualname)
     py2coq.load_function = rec
     mods = set()
     for p in glob.glob(os.path.join(V, 'harness', 'p_c*.py')):
         m = re.search(r"GENMODS\s*=\s*\[(.*?)\]", open(p).read(), flags=re.S)
         if m: mods.update(re.findall(r"'(\w+)'", m.group(1)))
     for mn in sorted(mods - {'gen_frozen'}):
-        mod = __import__(mn)
+        mod = __import__(mn); CUR[0] = mn
         if hasattr(mod, 'load_function'): mod.load_function = rec
         for pid in ['C%02d' % i for i in range(1, 21)]:
             (mod.generate_for(repo, pid) if hasattr(mod, 'generate_for') else mod.generate(repo))      # a refusal here is an error: fix it first
             if not hasattr(mod, 'generate_for'): break
-    out = {'anchored_in': {}, 'functions': {}, 'headers': {}, 'statements': {}}
-    for f in sorted(files):
+    out = {'anchored_in': {}, 'functions': {}, 'headers': {}, 'statements': {}, 'read_by': {}}
+    import subprocess
+    allsrc = [f for f in subprocess.check_output(['git', '-C', repo, 'ls-files', 'atsim/**/*.py'], text=True).split() if '/tests' not in f]
+    for f in sorted(set(files) | set(allsrc)):
+        files.setdefault(f, [])
         if not os.path.exists(os.path.join(repo, f)): continue
         fns, heads, stmts = snapshot(repo, f)
         out['anchored_in'][f] = files[f]
-        out['functions'][f] = {q: t for q, t in fns.items() if (f, q) not in LOADED}
+        out['functions'][f] = fns          # every function; 'read_by' names the generator modules that read it (empty: frozen for every property)
+        out['read_by'][f] = {q: sorted(LOADED[(f, q)]) for q in fns if (f, q) in LOADED}
         out['headers'][f] = heads
         out['statements'][f] = stmts
     json.dump(out, open(os.path.join(V, 'harness', 'frozen_glue.json'), 'w'), indent=1, sort_keys=True)
-    print(sum(len(v) for v in out['functions'].values()), 'functions frozen,', sum(len(v) for v in out['headers'].values()), 'headers,',
+    print(sum(1 for f in out['functions'] for q in out['functions'][f] if q not in out['read_by'][f]), 'functions frozen for every property,', sum(len(v) for v in out['headers'].values()), 'headers,',
           sum(len(x) for v in out['statements'].values() for x in v.values()), 'statements in', len(out['functions']), 'files;', len(LOADED), 'functions are read by generators')
